@@ -21,12 +21,15 @@ be refused (any exception) - writing a document for it is reported with its own 
 from __future__ import annotations
 
 import atexit
+import collections
+import collections.abc
 import datetime as _dt
 import itertools
 import math
 import os
 import shutil
 import tempfile
+import types
 import warnings
 from io import StringIO
 
@@ -76,7 +79,8 @@ REQUIRED_CLASSES = [
     'reducers_loop', 'builder_copy', 'builder_resave', 'powder_loop', 'calibration_loop', 'beamline_chunk',
     'builder_immutable', 'mut_loop_replaced', 'mut_loop_added', 'mut_chunk_replaced', 'mut_chunk_added',
     'mut_block_added', 'mut_inner_item', 'mut_renamed', 'mut_comment_changed', 'mut_builder_after_save',
-    'mut_back_to_original', 'mut_rejected',
+    'mut_back_to_original', 'mut_rejected', 'unit_non_ascii', 'unit_comment_escaped', 'powder_coord_rejected',
+    'powder_name_rejected', 'repr_one_shot', 'repr_mapping', 'repr_sequence', 'repr_same_text_as_dict', 'repr_str_subclass',
 ]
 
 BL = cp.BLANK
@@ -718,6 +722,16 @@ def cases(tier):
             out.append({'kind': 'builder', 'ops': list(seq)})
     for lab in LABELS:
         out.append({'kind': 'builder_str', 'v': lab})
+    # unit alphabet of the reduced powder data; input representations
+    for dim, cunit in POWDER_COORDS:
+        out.append({'kind': 'powder_units', 'dim': dim, 'coord_unit': cunit})
+    for vs in ('strings', 'python', 'numpy', 'variables', 'subclass'):
+        out.append({'kind': 'repr_pairs', 'values': vs})
+    for kind in SEQ_REPRS:
+        out.append({'kind': 'repr_containers', 'repr': kind})
+    for cols in ('plain', 'views'):
+        out.append({'kind': 'repr_loop', 'columns': cols})
+    out.append({'kind': 'repr_names'})
     # modify after write
     for target in ('loop', 'chunk', 'block'):
         for depth in (1, 2, 3):
@@ -1222,6 +1236,14 @@ def run_builder_str(case, rec):
     # comments: the string in every comment slot must not leak into the data
     da, _, d = _powder('d_tof')
     go('comments', lambda: cif.CIF(name, comment=v).with_beamline(metadata.Beamline(name='fake'), comment=v).with_reduced_powder_data(da, comment=v), {**base, 'content': [('beam', {'beamline': 'fake'}), ('powder', d)]})
+    # more user text slots: calibration comment, file comment given to save_cif, source name
+    cal, dc = _cal('cal')
+    go('cal_comment', lambda: cif.CIF(name).with_powder_calibration(cal, comment=v), {**base, 'content': [('cal', dc)]})
+    sub = sub_for([lab], slot='save_cif_comment')
+    attempt(rec, 'CIF.save', lambda: to_buffer(lambda f: cif.save_cif(f, cif.CIF(name, comment='own').with_reducers('x'), comment=v)), header=True, sub=sub, name=name, groups=builder_groups({**base, 'reducers': ['x']}))
+    if v:
+        src = lambda: metadata.Source(name=v, source_type=metadata.SourceType.ReactorNeutronSource, probe=metadata.RadiationProbe.Neutron)  # noqa: E731
+        go('source_name', lambda: cif.CIF(name).with_beamline(metadata.Beamline(name='B', facility=v, site=v, revision=v), src()), {**base, 'content': [('beam', {'probe': 'neutron', 'beamline': 'B', 'facility': v, 'device': 'nuclear'})]})
     # block name
     esc = v.encode('ascii', 'backslashreplace').decode()
     if v and not any(c in esc for c in ' \t\n'):
@@ -1568,10 +1590,319 @@ def run_badname_after_write(case, rec):
         rec.cls('doc_ok')
 
 
+# ---------------------------------------------------------------------------------------
+# reduced powder data over a unit alphabet (data unit x coordinate dim/unit x comment x variances x name)
+
+POWDER_COORDS = [
+    ('tof', 'us'), ('dspacing', 'angstrom'),  # the two combinations pdCIF defines (canonical)
+    ('tof', 'ms'), ('tof', 'ns'), ('tof', 's'), ('tof', None), ('tof', 'one'), ('tof', 'angstrom'),
+    ('dspacing', 'nm'), ('dspacing', 'm'), ('dspacing', 'us'), ('dspacing', 'one'),
+    ('two_theta', 'deg'), ('two_theta', 'rad'), ('wavelength', 'angstrom'), ('Q', '1/angstrom'), ('energy_transfer', 'meV'),
+]  # fmt: skip
+POWDER_CANONICAL = {('tof', 'us'): 'pd_meas.time_of_flight', ('dspacing', 'angstrom'): 'pd_proc.d_spacing'}
+POWDER_UNITS = [
+    'one', None, 'counts', 'counts/angstrom', '1/angstrom', 'uA*h', 'degC', 'um', 'us', 'angstrom**2', 'percent',
+    'meV', 'K', 'arb. units', 'counts/us',
+]  # fmt: skip
+POWDER_COMMENTS = ['', 'plain comment', 'ünï Å µ', 'two\nlines']
+POWDER_NAMES = ['', 'intensity_norm', 'intensity_net', 'intensity_total', 'bad name']
+
+
+def run_powder_units(case, rec):
+    dim, cunit = case['dim'], case['coord_unit']
+    canonical = POWDER_CANONICAL.get((dim, cunit))
+    xs, ys, xv, yv = [1.2, 1.4, 2.3], [13.6, 26.0, 9.7], [0.01, 0.04, 0.09], [0.7, 1.1, 0.5]
+    full = canonical is not None
+    for unit in POWDER_UNITS:
+        for comment in POWDER_COMMENTS if full else POWDER_COMMENTS[:1]:
+            for dvar, cvar in ((False, False), (True, False), (False, True), (True, True)) if full else ((True, False),):
+                for dname in POWDER_NAMES if full else POWDER_NAMES[:1]:
+                    x = sc.array(dims=[dim], values=xs, variances=xv if cvar else None, unit=cunit)
+                    y = sc.array(dims=[dim], values=ys, variances=yv if dvar else None, unit=unit)
+                    da = sc.DataArray(y, coords={dim: x}, name=dname)
+                    sub = {'labels': [], 'traits': ['powder_units'], 'dim': dim, 'coord_unit': str(cunit), 'unit': str(unit), 'comment': comment, 'variances': [dvar, cvar], 'name': dname}
+                    rec.transitions += 1
+                    try:
+                        b = cif.CIF('n', comment=comment).with_reduced_powder_data(da, comment=comment)
+                    except Exception as e:  # noqa: BLE001
+                        rec.states += 1
+                        rec.evals += 1
+                        if canonical is None:
+                            rec.cls('powder_coord_rejected')
+                        elif dname == 'bad name':
+                            rec.cls('powder_name_rejected')
+                        else:
+                            rec.viol('CIF.with_reduced_powder_data', 'raises', f'{type(e).__name__}: {e}', **sub)
+                        continue
+                    if canonical is None or dname == 'bad name':
+                        # accepted although not a pdCIF combination: nothing to compare the tags with, the
+                        # document must still be valid ASCII CIF 1.1
+                        text = to_buffer(b.save)
+                        rec.states += 1
+                        rec.evals += 1
+                        try:
+                            cp.parse(text, require_header=True)
+                            rec.cls('powder_noncanonical_written')
+                        except cp.CifSyntaxError as e:
+                            rec.viol('CIF.save', 'non_ascii' if e.code == 'illegal_char' else 'invalid_cif', f'{e}; file: {text[-300:]!r}', **sub)
+                        continue
+                    d = {'coord': canonical, 'x': xs, 'xv': xv if cvar else None, 'data': 'pd_proc.' + (dname or 'intensity_norm'), 'y': ys, 'yv': yv if dvar else None, 'unit': unit}
+                    model = {'authors': [], 'reducers': [], 'content': [('powder', d)]}
+                    text = attempt(rec, 'CIF.save', lambda b=b: to_buffer(b.save), header=True, sub=sub, name='n', groups=builder_groups(model))
+                    rec.cls('powder_loop')
+                    if text is None:
+                        continue
+                    ustr = str(y.unit)
+                    if unit != 'one' and any(ord(ch) > 127 for ch in ustr):
+                        rec.cls('unit_non_ascii')
+                        try:
+                            coms = [cp.unescape(c) for _, c in cp.lex(text)[1]]
+                        except cp.CifSyntaxError:
+                            coms = []
+                        if any(ustr in c for c in coms):
+                            rec.cls('unit_comment_escaped')
+
+
+# ---------------------------------------------------------------------------------------
+# input representations: the same pairs / columns / items handed over as dict, other mappings, sequences,
+# views and one-shot iterables; the same values as python / numpy scalars, 0-d arrays, 0-d variables, subclasses
+
+
+class _MyStr(str):
+    __slots__ = ()
+
+
+class _MyMapping(collections.abc.Mapping):
+    def __init__(self, pairs):
+        self._k = [k for k, _ in pairs]
+        self._d = dict(pairs)
+
+    def __getitem__(self, k):
+        return self._d[k]
+
+    def __iter__(self):
+        return iter(self._k)
+
+    def __len__(self):
+        return len(self._k)
+
+
+class _ReIterable:
+    def __init__(self, items):
+        self._items = list(items)
+
+    def __iter__(self):
+        return iter(self._items)
+
+
+MAPPING_REPRS = ['dict', 'ordered', 'proxy', 'custom_mapping', 'chainmap']
+PAIR_REPRS = [*MAPPING_REPRS, 'list', 'tuple', 'items', 'zip', 'generator', 'iter', 'map', 'reiterable', 'deque']
+SEQ_REPRS = ['list', 'tuple', 'generator', 'iter', 'reiterable', 'deque', 'map']
+ONE_SHOT = {'zip', 'generator', 'iter', 'map'}
+
+
+def _as_pairs(kind, pairs):
+    pairs = list(pairs)
+    if kind == 'dict':
+        return dict(pairs)
+    if kind == 'ordered':
+        return collections.OrderedDict(pairs)
+    if kind == 'proxy':
+        return types.MappingProxyType(dict(pairs))
+    if kind == 'custom_mapping':
+        return _MyMapping(pairs)
+    if kind == 'chainmap':
+        return collections.ChainMap(dict(pairs))
+    if kind == 'items':
+        return dict(pairs).items()
+    if kind == 'zip':
+        return zip([k for k, _ in pairs], [v for _, v in pairs], strict=True)
+    return _as_seq(kind, pairs)
+
+
+def _as_seq(kind, items):
+    items = list(items)
+    if kind == 'list':
+        return items
+    if kind == 'tuple':
+        return tuple(items)
+    if kind == 'generator':
+        return (x for x in items)
+    if kind == 'iter':
+        return iter(items)
+    if kind == 'map':
+        return map(lambda x: x, items)
+    if kind == 'reiterable':
+        return _ReIterable(items)
+    if kind == 'deque':
+        return collections.deque(items)
+    raise ValueError(kind)
+
+
+def _value_sets():
+    """name -> [(tag, value handed to the writer, expected)]"""
+    f32 = float(np.float32(0.1))
+    return {
+        'strings': [('k.a', 'abc', ('str', 'abc')), ('k.b', 'two words', ('str', 'two words')), ('k.c', 'line1\nline2', ('str', 'line1\nline2')), ('k.d', 'grüße', ('str', 'grüße')), ('k.e', '_x', ('str', '_x'))],
+        'python': [('k.a', 1.5, ('f64', 1.5)), ('k.b', 7, ('int', 7)), ('k.c', -0.1, ('f64', -0.1)), ('k.d', 1e300, ('f64', 1e300)), ('k.e', FROZEN, ('dt', FROZEN))],
+        'numpy': [
+            ('k.a', np.float64(1.5), ('f64', 1.5)), ('k.b', np.float32(0.1), ('f32', f32)), ('k.c', np.int64(7), ('int', 7)), ('k.d', np.int32(-3), ('int', -3)),
+            ('k.e', np.str_('np str'), ('str', 'np str')), ('k.f', np.array(2.5), ('f64', 2.5)), ('k.g', np.array(3), ('int', 3)), ('k.h', np.uint8(200), ('int', 200)),
+        ],
+        'variables': [
+            ('k.a', sc.scalar(1.5, unit='m'), ('f64', 1.5)), ('k.b', sc.scalar(7, unit='counts'), ('int', 7)), ('k.c', sc.scalar('var str'), ('str', 'var str')),
+            ('k.d', sc.scalar(1.2, variance=0.09), ('unc', 1.2, 0.09, 'f64')), ('k.e', sc.scalar(np.float32(0.1)), ('f32', f32)),
+            ('k.f', sc.datetime('2023-12-01T15:12:33', unit='s'), ('dt64', '2023-12-01T15:12:33')), ('k.g', sc.array(dims=['x'], values=[4.5, 5.5])[1], ('f64', 5.5)),
+        ],
+        'subclass': [(_MyStr('k.a'), _MyStr('abc'), ('str', 'abc')), (_MyStr('k.b'), _MyStr('two words'), ('str', 'two words')), ('k.c', _MyStr('ü\nx'), ('str', 'ü\nx')), (_MyStr('k.d'), 2.5, ('f64', 2.5))],
+    }  # fmt: skip
+
+
+PAIR_ENTRIES = ['Chunk', 'Chunk_kw', 'Chunk.write', 'Block_content', 'Block_add', 'Block_add_comment', 'Block_two_items']
+
+
+def run_repr_pairs(case, rec):
+    vs = _value_sets()[case['values']]
+    pairs = [(t, v) for t, v, _ in vs]
+    exp_pairs = [('pair', str(t), e) for t, _, e in vs]
+    texts = {}
+    for entry in PAIR_ENTRIES:
+        for kind in PAIR_REPRS:
+            sub = {'labels': [], 'traits': ['representation'], 'entry': entry, 'repr': kind, 'values': case['values']}
+            exp = [{'name': 'b', 'items': list(exp_pairs)}]
+            header = False
+            comments = None
+
+            def write(entry=entry, kind=kind):
+                r = _as_pairs(kind, pairs)
+                if entry == 'Chunk':
+                    return to_buffer(cif.Block('b', [cif.Chunk(r)]).write)
+                if entry == 'Chunk_kw':
+                    return to_buffer(cif.Block('b', [cif.Chunk(r, comment='chunk comment', schema=cif.CORE_SCHEMA)]).write)
+                if entry == 'Chunk.write':
+                    return 'data_b\n' + to_buffer(cif.Chunk(r).write)
+                if entry == 'Block_content':
+                    return to_buffer(cif.Block('b', [r]).write)
+                if entry == 'Block_two_items':
+                    return to_buffer(cif.Block('b', [r, _as_pairs(kind, [('z.z', 'end')])]).write)
+                blk = cif.Block('b')
+                if entry == 'Block_add':
+                    blk.add(r)
+                else:
+                    blk.add(r, comment='added comment')
+                return to_buffer(blk.write)
+
+            if entry == 'Chunk_kw':
+                exp[0]['items'].insert(0, ('schema', _schema_rows({cif.CORE_SCHEMA})))
+                comments = ['chunk comment']
+            elif entry == 'Block_add_comment':
+                comments = ['added comment']
+            elif entry == 'Block_two_items':
+                exp[0]['items'].append(('pair', 'z.z', ('str', 'end')))
+            text = attempt(rec, 'save_cif', write, header=header, sub=sub, blocks=exp, comments=comments)
+            rec.cls('repr_one_shot' if kind in ONE_SHOT else 'repr_mapping' if kind in MAPPING_REPRS else 'repr_sequence')
+            if kind == 'dict':
+                texts[entry] = text
+            elif text is not None and text == texts.get(entry):
+                rec.cls('repr_same_text_as_dict')
+
+
+def run_repr_containers(case, rec):
+    """Block content, save_cif blocks, schema and with_* arguments as list / tuple / one-shot iterables."""
+    kind = case['repr']
+    sub = {'labels': [], 'traits': ['representation'], 'repr': kind}
+    x, ex = MUT_VALUES['f0']()
+    st, es = MUT_VALUES['s0']()
+
+    def items():
+        return [cif.Chunk({'k.a': 'abc'}), {'d.a': 'x y'}, cif.Loop({'n.x': x, 'n.s': st}), [('p.a', 1.5)]]
+
+    exp_items = [('pair', 'k.a', ('str', 'abc')), ('pair', 'd.a', ('str', 'x y')), ('loop', ['n.x', 'n.s'], [[a, b] for a, b in zip(ex, es, strict=True)]), ('pair', 'p.a', ('f64', 1.5))]
+    attempt(rec, 'save_cif', lambda: to_buffer(cif.Block('b', _as_seq(kind, items())).write), header=False, sub={**sub, 'entry': 'Block(content)'}, blocks=[{'name': 'b', 'items': exp_items}])
+    # several blocks handed to save_cif
+    def blocks():
+        return [cif.Block(f'b{i}', [{f'k{i}.a': f'v {i}'}]) for i in range(3)]
+
+    expb = [{'name': f'b{i}', 'items': [('pair', f'k{i}.a', ('str', f'v {i}'))]} for i in range(3)]
+    attempt(rec, 'save_cif', lambda: to_buffer(lambda f: cif.save_cif(f, _as_seq(kind, blocks()))), header=True, sub={**sub, 'entry': 'save_cif(blocks)'}, blocks=expb)
+    # schema argument
+    custom = cif.CIFSchema(name='myDict', version='0.1', location='https://example.org/my.dic')
+    for target in ('Chunk', 'Loop', 'Block'):
+        def write(target=target):
+            sch = _as_seq(kind, [custom, cif.PD_SCHEMA])
+            if target == 'Chunk':
+                return to_buffer(cif.Block('b', [cif.Chunk({'k.a': 'abc'}, schema=sch)]).write)
+            if target == 'Loop':
+                return to_buffer(cif.Block('b', [cif.Loop({'n.x': x}, schema=sch)]).write)
+            return to_buffer(cif.Block('b', [{'k.a': 'abc'}], schema=sch).write)
+
+        item = ('loop', ['n.x'], [[e] for e in ex]) if target == 'Loop' else ('pair', 'k.a', ('str', 'abc'))
+        expi = [('schema', _schema_rows({cif.CORE_SCHEMA, cif.PD_SCHEMA, custom})), item]
+        attempt(rec, 'save_cif', write, header=False, sub={**sub, 'entry': f'{target}(schema)'}, blocks=[{'name': 'b', 'items': expi}])
+    # builder: authors and reducers unpacked from the representation
+    ps = [person(k) for k in ('reg', 'reg_r', 'con')]
+    model = {'authors': [d for _, d in ps], 'reducers': ['tool 1', 'tool 2'], 'content': []}
+    attempt(rec, 'CIF.save', lambda: to_buffer(cif.CIF('n').with_authors(*_as_seq(kind, [p for p, _ in ps])).with_reducers(*_as_seq(kind, ['tool 1', 'tool 2'])).save), header=True, sub={**sub, 'entry': 'with_authors(*repr)'}, name='n', groups=builder_groups(model))
+    rec.cls('repr_one_shot' if kind in ONE_SHOT else 'repr_sequence')
+
+
+def run_repr_loop(case, rec):
+    """Loop columns: mappings must work; other iterables of (tag, column) are either refused or written completely."""
+    x, ex = MUT_VALUES['f0']()
+    base = sc.array(dims=['q'], values=[9.0, 1.0, 8.0, 2.0, 7.0, 3.0])
+    cols = {
+        'plain': [('n.x', x, ex), ('n.s', *MUT_VALUES['s0']()), ('n.v', *MUT_VALUES['fv']())],
+        'views': [
+            ('n.a', base[::2].rename_dims(q='row'), [('f64', v) for v in (9.0, 8.0, 7.0)]),
+            ('n.b', sc.array(dims=['row'], values=np.array([1, 2, 3], dtype='int32')), [('int', v) for v in (1, 2, 3)]),
+            ('n.c', sc.array(dims=['row'], values=np.array(['p', 'q r', 'ü'])), [('str', v) for v in ('p', 'q r', 'ü')]),
+            (_MyStr('n.d'), sc.array(dims=['row'], values=np.array([0.1, 0.2, 0.3], dtype='float32')), [('f32', float(np.float32(v))) for v in (0.1, 0.2, 0.3)]),
+        ],
+    }[case['columns']]
+    pairs = [(t, v) for t, v, _ in cols]
+    tags = [str(t) for t, _, _ in cols]
+    rows = [[c[2][i] for c in cols] for i in range(3)]
+    exp = [{'name': 'b', 'items': [('loop', tags, rows)]}]
+    for kind in [*MAPPING_REPRS, 'list', 'tuple', 'items', 'zip', 'generator', 'iter']:
+        sub = {'labels': [], 'traits': ['representation'], 'entry': 'Loop', 'repr': kind, 'columns': case['columns']}
+        if kind in MAPPING_REPRS:
+            attempt(rec, 'save_cif', lambda kind=kind: to_buffer(cif.Block('b', [cif.Loop(_as_pairs(kind, pairs), comment='c')]).write), header=False, sub=sub, blocks=exp, comments=['c'])
+            rec.cls('repr_mapping')
+            continue
+        rec.transitions += 1
+        try:
+            lp = cif.Loop(_as_pairs(kind, pairs))
+        except Exception:  # noqa: BLE001 - not a mapping: refusal is acceptable, a silently incomplete loop is not
+            rec.cls('loop_columns_not_mapping_refused')
+            rec.evals += 1
+            continue
+        attempt(rec, 'save_cif', lambda lp=lp: to_buffer(cif.Block('b', [lp]).write), header=False, sub=sub, blocks=exp)
+
+
+def run_repr_names(case, rec):
+    """Names and comments as str subclasses (numpy str, user subclass)."""
+    for mk, lab in ((_MyStr, 'subclass'), (np.str_, 'numpy')):
+        sub = {'labels': [], 'traits': ['representation'], 'entry': 'names', 'repr': lab}
+        exp = [{'name': 'blk-ü', 'items': [('pair', 'k.a', ('str', 'abc')), ('loop', ['n.s'], [[e] for e in MUT_VALUES['s0']()[1]])]}]
+
+        def write(mk=mk):
+            blk = cif.Block(mk('blk-ü'), comment=mk('block comment ü'))
+            blk.add({mk('k.a'): mk('abc')}, comment=mk('chunk comment'))
+            blk.add(cif.Loop({mk('n.s'): MUT_VALUES['s0']()[0]}, comment=mk('loop\ncomment')))
+            return to_buffer(lambda f: cif.save_cif(f, blk, comment=mk('file comment å')))
+
+        attempt(rec, 'save_cif', write, header=True, sub=sub, blocks=exp, comments=['file comment å', 'block comment ü', 'chunk comment', 'loop\ncomment'])
+        model = {'authors': [{'name': 'N ü'}], 'reducers': ['tool ü'], 'content': [('beam', {'beamline': 'B ü'})]}
+        attempt(rec, 'CIF.save', lambda mk=mk: to_buffer(cif.CIF(mk('nm'), comment=mk('c ü')).with_authors(person(None, name=mk('N ü'))[0]).with_reducers(mk('tool ü')).with_beamline(metadata.Beamline(name=mk('B ü')), comment=mk('bc')).save), header=True, sub={**sub, 'entry': 'builder'}, name='nm', groups=builder_groups(model), comments=['c ü', 'bc'])
+        rec.cls('repr_str_subclass')
+
+
 RUNNERS = {
     'chunk1': run_chunk1, 'num1': run_num1, 'chunk2': run_chunk2, 'loop22': run_loop22, 'loop13': run_loop13,
     'loop31': run_loop31, 'loopnum': run_loopnum, 'block': run_block, 'multiblock': run_multiblock,
     'badname': run_badname, 'default_name': run_default_name, 'builder': run_builder, 'builder_str': run_builder_str,
+    'powder_units': run_powder_units, 'repr_pairs': run_repr_pairs, 'repr_containers': run_repr_containers,
+    'repr_loop': run_repr_loop, 'repr_names': run_repr_names,
     'mutate': run_mutate, 'mutate_builder': run_mutate_builder, 'badname_after_write': run_badname_after_write,
 }  # fmt: skip
 
